@@ -29,21 +29,21 @@ CONSTANTS NQ,        \* qubits
           Depth2     \* TRUE: modifier stacks of depth <= 2, FALSE: depth <= 1
 VARIABLES prog, nm, st, cur, cnd
 
-Names == (OneQ0 \cup OneQ1 \cup TwoQ0 \cup TwoQ1 \cup ThreeQ0 \cup {"u2", "u3", "cu", "gphase"}) \ {"cu1"}
-Mod(t, z, cv) == [t |-> t, z |-> z, cv |-> cv]
-ModAtoms == {Mod("adj", 0, <<>>), Mod("pow", 2, <<>>), Mod("pow", 3, <<>>), Mod("ctrl", 0, <<1>>), Mod("ctrl", 0, <<0>>)}
+QgNames == (OneQ0 \cup OneQ1 \cup TwoQ0 \cup TwoQ1 \cup ThreeQ0 \cup {"u2", "u3", "cu", "gphase"}) \ {"cu1"}
+QgMod(t, z, cv) == [t |-> t, z |-> z, cv |-> cv]
+ModAtoms == {QgMod("adj", 0, <<>>), QgMod("pow", 2, <<>>), QgMod("pow", 3, <<>>), QgMod("ctrl", 0, <<1>>), QgMod("ctrl", 0, <<0>>)}
 ModStacks == {<<>>} \cup {<<m>> : m \in ModAtoms} \cup (IF Depth2 THEN {<<m1, m2>> : m1 \in ModAtoms, m2 \in ModAtoms} ELSE {})
-NCtrl(ms) == Cardinality({i \in 1..Len(ms) : ms[i].t = "ctrl"})
-Inj(k) == {w \in [1..k -> 1..NQ] : \A i \in 1..k : \A j \in 1..k : i # j => w[i] # w[j]}
-Params(q) == IF QNParams(q) = 0 THEN {<<>>} ELSE IF QNParams(q) = 1 THEN {<<a>> : a \in Ang1} ELSE [1..QNParams(q) -> Ang2]
+QgNCtrl(ms) == Cardinality({i \in 1..Len(ms) : ms[i].t = "ctrl"})
+QgInj(k) == {w \in [1..k -> 1..NQ] : \A i \in 1..k : \A j \in 1..k : i # j => w[i] # w[j]}
+QgParams(q) == IF QNParams(q) = 0 THEN {<<>>} ELSE IF QNParams(q) = 1 THEN {<<a>> : a \in Ang1} ELSE [1..QNParams(q) -> Ang2]
 
-Blank == [q |-> "id", p |-> <<>>, w |-> <<>>, mods |-> <<>>]
+QgBlank == [q |-> "id", p |-> <<>>, w |-> <<>>, mods |-> <<>>]
 NoCond == [cw |-> <<>>, cv |-> <<>>, els |-> FALSE, pend |-> FALSE]
 GateIns(s, c) == [k |-> "q", g |-> s, cw |-> c.cw, cv |-> c.cv, els |-> c.els, w |-> 0, anc |-> 0, pe |-> <<>>, tol |-> <<>>]
-MeasIns(kd, w, a) == [k |-> kd, g |-> Blank, cw |-> <<>>, cv |-> <<>>, els |-> FALSE, w |-> w, anc |-> a, pe |-> <<>>, tol |-> <<>>]
+MeasIns(kd, w, a) == [k |-> kd, g |-> QgBlank, cw |-> <<>>, cv |-> <<>>, els |-> FALSE, w |-> w, anc |-> a, pe |-> <<>>, tol |-> <<>>]
 MeasAncs == {prog[i].anc : i \in {j \in 1..Len(prog) : prog[j].k = "m"}}
 
-Init == prog = <<>> /\ nm = 0 /\ st = "kind" /\ cur = Blank /\ cnd = NoCond
+Init == prog = <<>> /\ nm = 0 /\ st = "kind" /\ cur = QgBlank /\ cnd = NoCond
 PickKind ==
   /\ st = "kind" /\ Len(prog) < MaxLen
   /\ \/ /\ "gate" \in Kinds /\ st' = "name" /\ cnd' = NoCond /\ UNCHANGED <<prog, nm, cur>>
@@ -59,18 +59,18 @@ PickKind ==
      \/ /\ "ifelse" \in Kinds
         /\ \E j \in MeasAncs : cnd' = [cw |-> <<j>>, cv |-> << <<1>> >>, els |-> FALSE, pend |-> TRUE]
         /\ st' = "name" /\ UNCHANGED <<prog, nm, cur>>
-PickName == /\ st = "name" /\ \E q \in Names : cur' = [Blank EXCEPT !.q = q]
+PickName == /\ st = "name" /\ \E q \in QgNames : cur' = [QgBlank EXCEPT !.q = q]
             /\ st' = "mods" /\ UNCHANGED <<prog, nm, cnd>>
 PickMods == /\ st = "mods"
-            /\ \E ms \in {x \in ModStacks : QArity(cur.q) + NCtrl(x) <= NQ} : cur' = [cur EXCEPT !.mods = ms]
+            /\ \E ms \in {x \in ModStacks : QArity(cur.q) + QgNCtrl(x) <= NQ} : cur' = [cur EXCEPT !.mods = ms]
             /\ st' = "wires" /\ UNCHANGED <<prog, nm, cnd>>
-PickWires == /\ st = "wires" /\ \E w \in Inj(QArity(cur.q) + NCtrl(cur.mods)) : cur' = [cur EXCEPT !.w = w]
+PickWires == /\ st = "wires" /\ \E w \in QgInj(QArity(cur.q) + QgNCtrl(cur.mods)) : cur' = [cur EXCEPT !.w = w]
              /\ st' = "params" /\ UNCHANGED <<prog, nm, cnd>>
 PickParams == /\ st = "params"
-              /\ \E p \in Params(cur.q) : prog' = Append(prog, GateIns([cur EXCEPT !.p = p], cnd))
+              /\ \E p \in QgParams(cur.q) : prog' = Append(prog, GateIns([cur EXCEPT !.p = p], cnd))
               /\ IF cnd.pend THEN st' = "name" /\ cnd' = [cnd EXCEPT !.cv = << <<0>> >>, !.els = TRUE, !.pend = FALSE]
                              ELSE st' = "kind" /\ cnd' = NoCond
-              /\ cur' = Blank /\ UNCHANGED nm
+              /\ cur' = QgBlank /\ UNCHANGED nm
 Finish == /\ st = "kind" /\ Len(prog) >= MaxLen
           /\ PrintT(ToJson([n |-> NQ, k |-> nm, b |-> prog]))
           /\ st' = "done" /\ UNCHANGED <<prog, nm, cur, cnd>>
@@ -82,7 +82,7 @@ WellFormed ==
   /\ \A i \in 1..Len(prog) :
        LET ins == prog[i] IN
        /\ ins.k = "q" =>
-            /\ Len(ins.g.w) = QArity(ins.g.q) + NCtrl(ins.g.mods) /\ Len(ins.g.p) = QNParams(ins.g.q)
+            /\ Len(ins.g.w) = QArity(ins.g.q) + QgNCtrl(ins.g.mods) /\ Len(ins.g.p) = QNParams(ins.g.q)
             /\ \A a \in 1..Len(ins.g.w) : \A b \in 1..Len(ins.g.w) : a # b => ins.g.w[a] # ins.g.w[b]
             \* a condition only reads a bit measured EARLIER
             /\ \A t \in 1..Len(ins.cw) : \E j \in 1..(i - 1) : prog[j].k = "m" /\ prog[j].anc = ins.cw[t]
